@@ -88,7 +88,8 @@ Definition parse_bool (s : string) : outcome bool :=
   else if str_in s ["0";"f";"F";"FALSE";"false";"False"]%string then Ok false
   else Err "parsebool".
 
-(* ---- fmt.Sscanf: one %d verb.  Leading blanks are skipped (space, tab); any other
+(* ---- fmt.Sscanf: one %d verb (digits 0-9 only: the underscore is a digit for %v, not for %d;
+   the number ends at the first non-digit and the rest is left to the format).  Leading blanks are skipped (space, tab); any other
    white space (CR, LF, VT, FF, NBSP ...) before the number is outside the model. ---- *)
 Definition is_blank (c : ascii) : bool := Ascii.eqb c " " || Ascii.eqb c "009".
 Definition odd_space (c : ascii) : bool :=
@@ -97,13 +98,6 @@ Definition odd_space (c : ascii) : bool :=
 
 Fixpoint skip_blanks (l : list ascii) : list ascii :=
   match l with c :: r => if is_blank c then skip_blanks r else l | [] => [] end.
-
-Fixpoint span_digits_us (l : list ascii) : list ascii * list ascii :=
-  match l with
-  | c :: r => if is_digit c || Ascii.eqb c "_" then let '(d, t) := span_digits_us r in (c :: d, t)
-              else ([], l)
-  | [] => ([], [])
-  end.
 
 (* bits: the width of the Go destination (64 for int/int64) *)
 Definition scan_d (l : list ascii) : outcome (Z * list ascii) :=
@@ -117,7 +111,7 @@ Definition scan_d (l : list ascii) : outcome (Z * list ascii) :=
                      | "+" :: r => (false, r)
                      | _ => (false, l)
                      end in
-    let '(ds, rest) := span_digits_us r in
+    let '(ds, rest) := span_digits r in
     match ds with
     | [] => Err "scan-int"
     | _ => if all_b is_digit ds then
